@@ -800,6 +800,7 @@ class RF24:
         if not send_only and (self._in[0] >> 1) < 6:
             self.flush_rx()
         self.clear_status_flags()
+        self.update()  # get the status byte as it is after clearing the flags
         # self._reg_write(0xE3)
         up_cnt = 0
         self._ce_pin.value = True
